@@ -4,6 +4,7 @@ Property theorems only (helper lemmas: Lemmas/Response.lean; models: Model/Heade
 Model/Response.lean; generated tables: Gen/Response.lean).
 -/
 import WzVerif.Lemmas.Response
+import WzVerif.Lemmas.ResponseHist
 namespace Wz.Props.C05
 open Wz Hdr Resp Wz.C05L
 
@@ -418,6 +419,175 @@ theorem close_counts_after_call_on_close (r : R) (n : Nat) (e : CloseEv) :
       rw [beq_eq_false_iff_ne]; exact fun h => he h.symm
     rw [h1, if_neg he]; simp
 
+/-! ## close callbacks over whole histories of a response object
+
+`Resp.St` / `REv` (Model/Response.lean): registering callbacks, `get_data()`, `make_sequence()`,
+`freeze()`, `set_data()`, explicit `close()` / `with`, `get_wsgi_response`, the server pulling
+chunks (any prefix, also none) and closing the iterable. -/
+
+/-- **Exactly once, over histories.** Start from any response (any body shape, status, headers,
+callbacks already registered, either setting of `implicit_sequence_conversion` /
+`automatically_set_content_length`). Let any sequence `pre` of callback registrations, `get_data()`,
+`make_sequence()` happen, then `get_wsgi_response` for any method, then any sequence `mid` of the
+server pulling chunks (generator bodies closed early included), FURTHER callback registrations
+(`call_on_close` after `get_app_iter`), `get_data()` / `make_sequence()` on the side; then the server
+closes the iterable. Unless the response is in direct passthrough with a body to send (F05), every
+close action - the wrapped iterable's own `close` when it has one, every callback registered before
+or after - has run exactly as often as it was registered: once. -/
+theorem close_exactly_once_history (r : R) (cfg : Cfg) (pre mid : List REv) (m lo co : Str)
+    (hq : (pre ++ mid).all quiet = true)
+    (h : ¬ (r.directPassthrough = true ∧ bodyless r.status m = false)) (e : CloseEv) :
+    (runEvs (initSt r cfg) (pre ++ [.getWsgi m lo co] ++ mid ++ [.iterClose])).log.count e
+      = (expectedClose r).count e + regs (pre ++ mid) e := by
+  simp only [List.all_append, Bool.and_eq_true] at hq
+  rw [runEvs_append, runEvs_append, runEvs_append]
+  obtain ⟨p1, p2, p3, _, p5⟩ := quiet_run pre (initSt r cfg) hq.1
+  generalize hs1 : runEvs (initSt r cfg) pre = s1 at p1 p2 p3 p5
+  -- get_wsgi_response: the held iterable is a ClosingIterator
+  have hheld : isClosing (runEvs s1 [.getWsgi m lo co]).held = true := by
+    have p2' : s1.r.status = r.status := p2
+    have p3' : s1.r.directPassthrough = r.directPassthrough := p3
+    simp only [runEvs, nextEv]
+    rw [p2', p3']
+    by_cases hb : bodyless r.status m = true
+    · rw [if_pos hb]; rfl
+    · rw [if_neg hb]
+      have hb' : bodyless r.status m = false := by simpa using hb
+      by_cases hd : r.directPassthrough = true
+      · exact absurd ⟨hd, hb'⟩ h
+      · have hd' : r.directPassthrough = false := by simpa using hd
+        rw [hd']
+        cases s1.r.body.kind <;> rfl
+  have hs2 : (runEvs s1 [.getWsgi m lo co]).log = s1.log ∧ (runEvs s1 [.getWsgi m lo co]).r = s1.r := ⟨rfl, rfl⟩
+  generalize runEvs s1 [.getWsgi m lo co] = s2 at hheld hs2
+  obtain ⟨q1, _, _, q4, q5⟩ := quiet_run mid s2 hq.2
+  generalize hs3 : runEvs s2 mid = s3 at q1 q4 q5
+  have hc := q4 hheld
+  have hlog : (runEvs s3 [.iterClose]).log = s3.log ++ respClose s3.r := by
+    simp only [runEvs, nextEv]
+    cases hh : s3.held <;> simp_all [isClosing]
+  rw [hlog, q1, hs2.1, p1]
+  have hexp : respClose s3.r = expectedClose s3.r := rfl
+  simp only [initSt, List.nil_append, hexp]
+  rw [q5 e, hs2.2, p5 e, regs_append]
+  simp only [initSt]
+  omega
+
+example : ([REv.callOnClose 0, .getData] ++ [REv.take 1, .callOnClose 1, .makeSequence]).all quiet = true := by decide
+
+/-- every close event - the server closing a `ClosingIterator`, `response.close()`, leaving a `with`
+block - runs exactly the actions due at that moment, once each; so closing twice (explicitly and by
+the server) runs them twice: "exactly once" is per close of the returned iterable -/
+theorem each_close_runs_each_action_once (s : St) :
+    (nextEv s .close).1.log = s.log ++ expectedClose s.r ∧
+    (isClosing s.held = true → (nextEv s .iterClose).1.log = s.log ++ expectedClose s.r) ∧
+    (runEvs s [.close, .close]).log = s.log ++ expectedClose s.r ++ expectedClose s.r := by
+  refine ⟨rfl, fun hc => ?_, by simp [runEvs, nextEv, expectedClose, respClose]⟩
+  simp only [nextEv]
+  cases hh : s.held <;> simp_all [isClosing, expectedClose, respClose]
+
+/-- **`Response.from_app(inner, environ)` / `force_type(app, environ)`** (`run_wsgi_app`): the outer
+response's body is the inner response's WSGI iterable - a streamed body whose `close` is the inner
+`ClosingIterator.close`. Whatever happens to the outer response before and while it is served (as in
+`close_exactly_once_history`), the server closing the outer iterable closes the inner iterable
+exactly once, and that one close runs every close action of the inner response - its callbacks and
+its own body's `close` - exactly once, however many chunks were pulled. -/
+theorem from_app_close_exactly_once (rI rO : R) (cfgI cfgO : Cfg) (mI mO : Str) (pre mid : List REv) (n : Nat)
+    (hq : (pre ++ mid).all quiet = true)
+    (hO : rO.body.kind = .stream true) (hOn : rO.onClose.count .wrapped = 0)
+    (hdO : rO.directPassthrough = false) (hdI : rI.directPassthrough = false) :
+    (runEvs (initSt rO cfgO) (pre ++ [.getWsgi mO [] []] ++ mid ++ [.iterClose])).log.count .wrapped = 1 ∧
+    ∀ e, (runEvs (initSt rI cfgI) [.getWsgi mI [] [], .take n, .iterClose]).log.count e = (expectedClose rI).count e := by
+  have regs_wrapped : ∀ evs : List REv, regs evs .wrapped = 0 := by
+    intro evs
+    induction evs with
+    | nil => rfl
+    | cons x t ih => cases x <;> simp [regs, ih]
+  constructor
+  · rw [close_exactly_once_history rO cfgO pre mid mO [] [] hq (by simp [hdO]) .wrapped, regs_wrapped]
+    simp [expectedClose, hO, hOn]
+  · intro e
+    have := close_exactly_once_history rI cfgI [] [.take n] mI [] [] rfl (by simp [hdI]) e
+    simpa [regs] using this
+
+/-- F05b: `freeze()` consumes a streamed body into a list but - unlike `make_sequence()` - does not
+take over the iterable's `close`: with a closable iterator as body, `freeze()`, `get_wsgi_response`,
+and the server closing, the iterable's own `close` never runs. (So `close_exactly_once_history`
+cannot admit `freeze` among the events.) -/
+theorem freeze_loses_wrapped_close_full_false :
+    ¬ (∀ (r : R) (cfg : Cfg) (etag m : Str) (e : CloseEv),
+        (runEvs (initSt r cfg) [.freeze etag, .getWsgi m [] [], .iterClose]).log.count e = (expectedClose r).count e) := by
+  intro h
+  exact absurd (h ⟨[], [], 200, ⟨.stream true, [.bytes [97]]⟩, false, [.cb 0]⟩ {} [] "GET".toList .wrapped) (by decide)
+
+/-- ... whereas for list / tuple bodies and streamed bodies without `close`, `freeze()` keeps the
+guarantee, and in every case it leaves a sequence body whose Content-Length header is exactly the
+number of body bytes -/
+theorem freeze_partial (r : R) (cfg : Cfg) (etag m : Str) (e : CloseEv)
+    (hk : r.body.kind ≠ .stream true)
+    (h : ¬ (r.directPassthrough = true ∧ bodyless r.status m = false)) :
+    (runEvs (initSt r cfg) [.freeze etag, .getWsgi m [] [], .iterClose]).log.count e = (expectedClose r).count e ∧
+    (nextEv (initSt r cfg) (.freeze etag)).1.r.body.kind = .seq ∧
+    getlist (nextEv (initSt r cfg) (.freeze etag)).1.r.headers "content-length".toList
+      = [Views.CC.natText (allBytes r.body.items).length] := by
+  have hlen : totalLen (r.body.items.map fun i => Item.bytes i.encode) = (allBytes r.body.items).length := by
+    simp [totalLen, allBytes, List.length_flatten, Item.encode, Function.comp_def]
+  refine ⟨?_, rfl, ?_⟩
+  · have hexp : (expectedClose r).count e = r.onClose.count e := by
+      unfold expectedClose
+      cases hkk : r.body.kind with
+      | seq => simp
+      | stream c =>
+        cases c with
+        | true => exact absurd hkk hk
+        | false => simp
+    -- the state after `freeze()` is a fresh state of the frozen response
+    have hfz : ∃ r', (nextEv (initSt r cfg) (.freeze etag)).1 = initSt r' cfg ∧ r'.status = r.status ∧
+        r'.directPassthrough = r.directPassthrough ∧ r'.body.kind = .seq ∧ r'.onClose = r.onClose := by
+      refine ⟨(nextEv (initSt r cfg) (.freeze etag)).1.r, ?_, rfl, rfl, rfl, rfl⟩
+      simp only [nextEv, initSt]
+      cases r.body.kind <;> rfl
+    obtain ⟨r', hr', hst, hdp, hkind, hon⟩ := hfz
+    have := close_exactly_once_history r' cfg [] [] m [] [] rfl (by rw [hst, hdp]; exact h) e
+    simp only [List.nil_append, List.append_nil, List.cons_append, regs, Nat.add_zero] at this
+    have hrun : runEvs (initSt r cfg) [.freeze etag, .getWsgi m [] [], .iterClose]
+        = runEvs (initSt r' cfg) [.getWsgi m [] [], .iterClose] := by
+      simp only [runEvs]; rw [hr']
+    rw [hrun, this, hexp]
+    unfold expectedClose
+    rw [hkind, hon]; simp
+  · rw [← hlen]
+    simp only [nextEv]
+    split
+    · exact C16L.set_getlist' _ _ _ _ (by decide) (C16L.natText_noNL _)
+    · rw [C05L.set_getlist_ne _ _ _ _ (by decide)]
+      exact C16L.set_getlist' _ _ _ _ (by decide) (C16L.natText_noNL _)
+
+/-- `set_data(value)` replaces the body by the one byte string and (with
+`automatically_set_content_length`) stores its exact length; `get_data()` on a streamed body is
+refused with RuntimeError - leaving the response as it was - in direct passthrough mode or when
+`implicit_sequence_conversion` is off, and otherwise returns exactly the bytes the body yields -/
+theorem set_data_get_data (s : St) (b : Bytes) :
+    (nextEv s (.setData b)).1.r.body = ⟨.seq, [.bytes b]⟩ ∧
+    (s.cfg.autoLength = true →
+      getlist (nextEv s (.setData b)).1.r.headers "content-length".toList = [Views.CC.natText b.length]) ∧
+    ((∃ c, s.r.body.kind = .stream c) → (s.r.directPassthrough = true ∨ s.cfg.implicitConv = false) →
+      nextEv s .getData = (s, .error "RuntimeError")) ∧
+    (s.r.directPassthrough = false → s.cfg.implicitConv = true →
+      (nextEv s .getData).2 = .ok (.data (allBytes s.r.body.items))) := by
+  refine ⟨rfl, fun ha => ?_, fun ⟨c, hc⟩ hor => ?_, fun hd hi => ?_⟩
+  · simp only [nextEv, ha, if_true]
+    exact C16L.set_getlist' _ _ _ _ (by decide) (C16L.natText_noNL _)
+  · rcases hor with hd | hi
+    · simp [nextEv, ensureSequence, hc, hd]
+    · cases hd : s.r.directPassthrough <;> simp [nextEv, ensureSequence, hc, hd, hi]
+  · cases hk : s.r.body.kind with
+    | seq => simp [nextEv, ensureSequence, hk]
+    | stream c =>
+      simp only [nextEv, ensureSequence, hk, hd, hi, Bool.false_eq_true, if_false, Bool.not_true]
+      simp only [makeSequence, hk, allBytes, List.map_map]
+      congr 2
+
 /-! ## Location is an ASCII URI (on top of C15) -/
 
 open Wz.C16L Wz.C08L
@@ -452,6 +622,18 @@ with autocorrection both arguments of the opaque `urljoin` went through `iri_to_
 theorem location_ascii (U : UrlOps) (hU : UrlLaws U) (autocorrect : Bool) (currentUrl location : Str) :
     Ascii (locationOut U autocorrect currentUrl location) ∧ Ascii (iriToUriStr U location) :=
   ⟨locationOut_ascii U hU autocorrect currentUrl location, iriToUriStr_ascii U hU location⟩
+
+/-- the IDNA law (`split_host`: the host that `hostname.encode("idna").decode("ascii")` leaves in the
+split URL is ASCII - the codec either produces ASCII labels or raises, and then nothing is handed to
+the server) is NEEDED: with a host conversion that lets a refused label through unchanged, the same
+composition hands a non-ASCII Location to the server. The harness checks this law on the real call
+path for every case (`urlsplit(iri_to_uri(u)).hostname.isascii()`). -/
+theorem location_ascii_needs_idna_law :
+    let U : UrlOps := ⟨fun url => { host := url }, fun sp => sp.netloc, fun _ b => b⟩
+    ¬ Ascii (locationOut U false [] ['א', 'a']) := by
+  intro U h
+  have := h 'א' (by decide +kernel)
+  exact absurd this (by decide)
 
 /-- non-vacuity of the assumed laws: they hold e.g. for primitives that drop everything -/
 example : UrlLaws ⟨fun url => { path := url },
